@@ -251,6 +251,13 @@ func genUniverse(r *rand.Rand, g *grpSpec, nk int) {
 		g.Univ = append(g.Univ, k)
 	}
 	base := int64(r.Intn(12))
+	if r.Intn(2) == 0 {
+		// the first key (the one most calls go to) is often a boundary of the type rather than a small number
+		wide := []int64{lo, hi, lo + 1, hi - 1, hi - int64(r.Intn(50)), lo + int64(r.Intn(50)), 1 << 31, 1<<32 + int64(r.Intn(9)), 1<<40 + int64(r.Intn(99)), -1 - int64(r.Intn(9))}
+		if b := wide[r.Intn(len(wide))]; b >= lo && b <= hi {
+			base = b
+		}
+	}
 	add(base)
 	for tries := 0; len(g.Univ) < nk && tries < 200; tries++ {
 		switch r.Intn(9) {
@@ -311,7 +318,10 @@ func genSteps(r *rand.Rand, g *grpSpec, n int, cancels bool) []opSpec {
 	if !g.Wrapped {
 		probe = 8
 	}
-	hot := g.Univ[r.Intn(len(g.Univ))]
+	hot := g.Univ[0]
+	if r.Intn(10) < 4 {
+		hot = g.Univ[r.Intn(len(g.Univ))]
+	}
 	steps := []opSpec{}
 	for len(steps) < n {
 		k := hot
@@ -335,8 +345,22 @@ func genSteps(r *rand.Rand, g *grpSpec, n int, cancels bool) []opSpec {
 	return steps
 }
 
-func genSeq(r *rand.Rand, focus string, maxSteps int) *seqSpec {
+// idx: position of the history in the run; the key types of hasher.go take turns
+func genSeq(r *rand.Rand, focus string, maxSteps int, idx int) *seqSpec {
 	g := genGroup(r, focus)
+	if !strings.HasPrefix(focus, "seq/") {
+		g.Kind = idx % nKinds
+		g.Univ, g.InitL = nil, nil
+		if !kindCacheable(g.Kind) {
+			g.Wrapped = true
+		}
+		genUniverse(r, &g, 2+r.Intn(4))
+		for _, k := range g.Univ {
+			if r.Intn(10) < 3 {
+				g.InitL = append(g.InitL, [2]int64{k, genDatum(r, &g)})
+			}
+		}
+	}
 	n := 6 + r.Intn(maxSteps-5)
 	return &seqSpec{G: g, Steps: genSteps(r, &g, n, true)}
 }
